@@ -92,6 +92,10 @@ func ruleC14(c *Ctx) {
 			_, bufFresh := buf.(*AllocV)
 			fw := nws[0].Res[0]
 			wrs := findCall(t, "(*compress/flate.Writer).Write")
+			// io.WriteString(w, s) is w.Write([]byte(s)) for a writer without WriteString (flate.Writer has none)
+			for _, e := range findCall(t, "io.WriteString") {
+				wrs = append(wrs, &Event{Kind: EvCall, Instr: e.Instr, Callee: e.Callee, Args: []Val{stripIface(e.Args[0]), e.Args[1]}, Res: e.Res, Seq: e.Seq})
+			}
 			cls := findCall(t, "(*compress/flate.Writer).Close")
 			docStr := "(*etree.Document).WriteToString(" + docP + ")#0"
 			okW := len(wrs) == 1 && wrs[0].Args[0].Key() == fw.Key() && (ap(wrs[0].Args[1]) == "[]byte("+docStr+")" || ap(wrs[0].Args[1]) == docStr)
